@@ -71,7 +71,8 @@ Inductive phase :=
 | PRead (tgt : Z)                          (* advance_realtime entered; first clock reading not yet taken *)
 | PCheck (tgt w : Z) (locked brk : bool)   (* at the wait loop's test with wall_now = w; [locked] = the mutex is
                                               already held (we come from wait_for); [brk] = wait_for returned true *)
-| PWait (tgt : Z)                          (* blocked inside wait_for; mutex released *)
+| PWait (tgt : Z) (sig : bool)             (* blocked inside wait_for; mutex released.  [sig]: a notify_all has reached
+                                              the waiter while its predicate holds, so wait_for is about to return *)
 | PWoke (tgt : Z) (b : bool)               (* wait_for returned b; mutex held; clock not yet re-read *)
 | PAdv (prev t : Z)                        (* advance_realtime returned t; break test not yet made *)
 | PEvalPre (t : Z)                         (* graph.evaluate(t) entered; push flag not yet reset *)
@@ -79,7 +80,11 @@ Inductive phase :=
 | PDone.                                   (* run_storage left its loop *)
 
 (* one evaluated cycle, as the code computed it (ghost record) *)
-Record cyc := mkCyc { ct : Z; cw : Z; ctgt : Z; cprev : Z }.
+Record cyc := mkCyc { ct : Z;      (* the time advance_realtime returned *)
+                      cw : Z;      (* the clock reading it used (the last one taken) *)
+                      ctgt : Z;    (* its target = min(next_scheduled, end) *)
+                      cprev : Z;   (* evaluation_time before *)
+                      cwk : bool   (* wake_requested() when the wait loop was left *) }.
 
 Record st := mkSt {
   ev : Z;              (* state.evaluation_time *)
@@ -127,9 +132,6 @@ Definition set_pend (s : st) (l : list Z) : st :=
 Definition lock_held (p : phase) : bool :=
   match p with PCheck _ _ true _ => true | PWoke _ _ => true | _ => false end.
 
-(* wake_requested(): the predicate of the wait *)
-Definition wake_requested (s : st) : bool := push s || stop s.
-
 (* target as the run loop and advance_realtime compute it from graph.next_scheduled_time() *)
 Definition target_of (c : cfg) (s : st) : Z :=
   let next := pend_min (pend s) in
@@ -155,7 +157,10 @@ Definition do_req (started : bool) (s : st) (kind arg w1 w2 eff : Z) : option st
   | None => if eff =? 0 then Some (set_wall s wl) else None
   end.
 
+(* wake_requested(): the predicate of the wait *)
 (* other threads: need the mutex for their critical section *)
+Definition wake_requested (s : st) : bool := push s || stop s.
+
 Definition do_other (s : st) (l : label) : option st :=
   match l with
   | XPushSet =>
@@ -167,8 +172,12 @@ Definition do_other (s : st) (l : label) : option st :=
       if lock_held (ph s) then None else
       Some (mkSt (ev s) (pend s) (push s) true (consec s) (ph s) (wall s) (notif s + 1) (cycles s) (cut s))
   | XPushNotify | XStopNotify =>
+      (* notify_all: a blocked waiter wakes, re-evaluates its predicate under the mutex and goes back to sleep
+         unless it holds *)
       if 0 <? notif s
-      then Some (mkSt (ev s) (pend s) (push s) (stop s) (consec s) (ph s) (wall s) (notif s - 1) (cycles s) (cut s))
+      then Some (mkSt (ev s) (pend s) (push s) (stop s) (consec s)
+                      (match ph s with PWait tgt sg => PWait tgt (sg || wake_requested s) | p => p end)
+                      (wall s) (notif s - 1) (cycles s) (cut s))
       else None
   | _ => None
   end.
@@ -191,14 +200,14 @@ Definition step (c : cfg) (s : st) (l : label) : option st :=
   | PRead tgt, LRead w => if wall s <=? w then Some (set_wall (set_ph s (PCheck tgt w false false)) w) else None
   | PCheck tgt w _ brk, LWaitBefore =>
       (* while (wall_now < target && !wake_requested()) — and not the break after a true wait_for *)
-      if negb brk && (w <? tgt) && negb (wake_requested s) then Some (set_ph s (PWait tgt)) else None
+      if negb brk && (w <? tgt) && negb (wake_requested s) then Some (set_ph s (PWait tgt false)) else None
   | PCheck tgt w _ brk, LAdv t =>
       if negb brk && (w <? tgt) && negb (wake_requested s) then None else
       if t =? advance_result c s tgt w then
         Some (mkSt t (pend s) (push s) (stop s) (consec s) (PAdv (ev s) t) (wall s) (notif s) (cycles s)
                    (cut s || drain_cut c s tgt w))
       else None
-  | PWait tgt, LWaitAfter =>
+  | PWait tgt _, LWaitAfter =>
       (* wait_for(lock, d, pred): a time-out returns pred(); a wake-up returns only when pred() holds *)
       Some (set_ph s (PWoke tgt (wake_requested s)))
   | PWoke tgt b, LRead w => if wall s <=? w then Some (set_wall (set_ph s (PCheck tgt w true b)) w) else None
@@ -233,7 +242,7 @@ Definition gstep (c : cfg) (s : st) (l : label) : option st :=
       match ph s, l with
       | PCheck tgt w _ _, LAdv t =>
           Some (mkSt (ev s') (pend s') (push s') (stop s') (consec s') (ph s') (wall s') (notif s')
-                     (mkCyc t w tgt (ev s) :: cycles s') (cut s'))
+                     (mkCyc t w tgt (ev s) (wake_requested s) :: cycles s') (cut s'))
       | _, _ => Some s'
       end
   | None => None
@@ -300,6 +309,15 @@ Definition freq_ok (started : bool) (now kind arg eff wb wa : Z) : bool :=
     (1 <=? arg) && btw (Z.max now wb + arg) eff (Z.max now wa + arg)
   else false.
 
+(* what a free-running observer can check of one cycle: t = its time, wobs = a clock reading taken after
+   advance_realtime returned, wlast = a clock reading taken before it was entered *)
+Definition fr_cycle_ok (first : bool) (start endt prev wlast tgt t wobs : Z) : bool :=
+  (wlast <=? wobs)
+  && (if first then start <=? t else prev <? t)                       (* strictly increasing *)
+  && (t <=? tgt) && (t <? endt)                                        (* never past a pending time *)
+  && (t <=? Z.max wobs (prev + MIN_TD))                                (* never early *)
+  && (negb (t <? tgt) || ((wlast <=? t) && (prev + MIN_TD <=? t))).    (* a wake-up cycle is stamped by the clock *)
+
 Definition fr_step (c : cfg) (f : fst_) (e : fev) : option fst_ :=
   if f_done f then None else
   match e with
@@ -322,11 +340,7 @@ Definition fr_step (c : cfg) (f : fst_) (e : fev) : option fst_ :=
       let early := t <? tgt in
       let after := if f_stopret f then f_after_stop f + 1 else f_after_stop f in
       if f_started f && negb (f_in f)
-         && (f_wlast f <=? wobs)
-         && (if first then c_start c <=? t else f_prev f <? t)            (* strictly increasing *)
-         && (t <=? tgt) && (t <? c_end c)                                  (* never past a pending time *)
-         && (t <=? Z.max wobs (f_prev f + MIN_TD))                         (* never early *)
-         && (negb early || ((f_wlast f <=? t) && (f_prev f + MIN_TD <=? t)))  (* a wake-up cycle is stamped by the clock *)
+         && fr_cycle_ok first (c_start c) (c_end c) (f_prev f) (f_wlast f) tgt t wobs
          && (after <=? 1)                                                  (* stop ends the run after the current cycle *)
       then
         Some (mkF (f_pend f) (f_prev f) wobs (f_ncyc f + 1)
